@@ -112,6 +112,33 @@ def run(ctx):
                 break
     if snapshot_shared() != shared0:
         fail("the built-in style map or the shared document singletons were modified by conversions", {"api": "mammoth.options._default_style_map"})
+    # ---- values the CALLER owns: a converter that hands back the same dict every time must get it back untouched, and a picture
+    # without alt text must not inherit the alt text of a picture converted earlier
+    from mammoth.docx.xmlparser import element as X
+
+    def picture_doc(descr):
+        g = gen_xml.XGen(rng, textboxes=False, notes=False, comments=False, deleted=False, fields=False, linked_rate=0.0, anomalies=0.0)
+        pkg = g.package(1)
+        dr = g.drawing()
+        for n_ in [dr] + list(dr.children) + [c2 for c in dr.children for c2 in c.children]:
+            if getattr(n_, "name", None) in ("wp:inline", "wp:anchor"):
+                n_.children[:] = [c for c in n_.children if c.name != "wp:docPr"] + ([X("wp:docPr", {"descr": descr})] if descr else [])
+                n_.children.sort(key=lambda c: c.name != "wp:docPr")
+        pkg.body.append(X("w:p", {}, [X("w:r", {}, [dr])]))
+        return B.build(pkg)[0]
+    shared = {"src": "placeholder.png"}
+    conv = mammoth.images.img_element(lambda image: shared)
+    with_alt, without_alt = picture_doc("first picture"), picture_doc(None)
+    alone = _safe(lambda: mammoth.convert_to_html(io.BytesIO(without_alt), convert_image=mammoth.images.img_element(lambda image: {"src": "placeholder.png"})))
+    r1 = _safe(lambda: mammoth.convert_to_html(io.BytesIO(with_alt), convert_image=conv))
+    r2 = _safe(lambda: mammoth.convert_to_html(io.BytesIO(without_alt), convert_image=conv))
+    ctx.count(3)
+    if shared != {"src": "placeholder.png"}:
+        fail("a conversion modified the dict its image converter returned (a value the caller owns and may reuse)",
+             {"api": "mammoth.convert_to_html(convert_image=img_element(lambda image: SHARED))", "shared_after": dict(shared)})
+    elif digest(r2) != digest(alone):
+        fail("a picture without alt text converted differently after another picture had been converted with the same converter",
+             {"api": "mammoth.convert_to_html(convert_image=...)", "alone": getattr(alone, "value", repr(alone))[:300], "after": getattr(r2, "value", repr(r2))[:300]})
     # ---- interpreter-global state: what every other thread of the process sees must be the same before, DURING (observed from a
     # transform_document callback, which runs in the middle of a conversion) and after a conversion
     import sys
